@@ -12,17 +12,17 @@ from common import (REPLAY_DIR, VERIF, Inconclusive, Scratch, load_known_finding
 VT = "python3-vt"
 
 FAMILIES_OF = {
-    "C01": ["plain", "full", "wide", "hints", "hard", "deep", "lazycon", "tiny"],
-    "C02": ["plain", "full", "wide", "hints", "hard", "deep", "lazycon", "tiny"],
-    "C03": ["plain", "full", "wide", "hints", "hard", "deep", "lazycon", "tiny"],
-    "C04": ["plain", "full", "wide", "hints", "soft", "softx", "reuse", "deep", "lazycon"],
-    "C05": ["plain", "full", "hints", "soft", "softx", "softloop", "hard", "deep", "lazycon"],
-    "C07": ["plain", "full", "wide", "hard", "deep", "lazycon"],
-    "C08": ["plain", "full", "wide", "hard", "deep", "lazycon"],
+    "C01": ["plain", "full", "wide", "hints", "hard", "deep", "lazycon", "tiny", "dense"],
+    "C02": ["plain", "full", "wide", "hints", "hard", "deep", "lazycon", "tiny", "dense"],
+    "C03": ["plain", "full", "wide", "hints", "hard", "deep", "lazycon", "tiny", "dense"],
+    "C04": ["plain", "full", "wide", "hints", "soft", "softx", "reuse", "deep", "lazycon", "dense"],
+    "C05": ["plain", "full", "hints", "soft", "softx", "softloop", "hard", "deep", "lazycon", "dense"],
+    "C07": ["plain", "full", "wide", "hard", "deep", "lazycon", "dense"],
+    "C08": ["plain", "full", "wide", "hard", "deep", "lazycon", "dense"],
     "C10": ["async", "asynchard"],
     "C13": ["reuse"],
     "C14": ["soft", "softx", "softloop"],
-    "C15": ["wide", "full", "deep", "lazycon", "softloop"],
+    "C15": ["wide", "full", "deep", "lazycon", "softloop", "dense"],
     "C16": ["snapshot"],
     "C20": ["cache"],
 }
